@@ -54,10 +54,10 @@ async def observe(sess, names):
 class Restart(Harness):
     """An orderly restart changes nothing a client can see (C12)."""
 
-    scope = "histories of <=3 steps from {expunge middle, expunge last, keyword+flags, append, subscribe, delete-parent-to-\\Noselect, rename, copy} on a 3-folder tree; restart after each step"
+    scope = "histories of <=3 steps from {expunge middle, expunge last, keyword+flags, flag set and removed again, append, subscribe, delete-parent-to-\\Noselect, rename, copy} on a 3-folder tree; restart after each step"
     exhaustive = False
 
-    STEPS = ["expunge-mid", "expunge-last", "flags", "append", "subscribe", "noselect", "rename", "copy"]
+    STEPS = ["expunge-mid", "expunge-last", "flags", "unflag", "append", "subscribe", "noselect", "rename", "copy"]
 
     def inputs(self, tier, seed):
         n = 2 if tier == "quick" else 3
@@ -78,6 +78,9 @@ class Restart(Harness):
                         await a.cmd("SELECT work"); await a.cmd("STORE * +FLAGS (\\Deleted)"); await a.cmd("EXPUNGE")
                     elif step == "flags":
                         await a.cmd("SELECT inbox"); await a.cmd("STORE 1 +FLAGS (\\Seen \\Flagged $Forwarded kw)")
+                    elif step == "unflag":
+                        # the flag disappears from the mailbox altogether (its sequence becomes empty)
+                        await a.cmd("SELECT inbox"); await a.cmd("STORE 1 +FLAGS (\\Flagged kw2)"); await a.cmd("STORE 1:* -FLAGS (\\Flagged kw2 kw)")
                     elif step == "append":
                         await a.cmd("APPEND work (\\Seen) {20}\r\nSubject: x\r\n\r\nbody\r\n\r\n")
                     elif step == "subscribe":
@@ -163,3 +166,226 @@ class MigrationCrash(Harness):
             return None
         finally:
             shutil.rmtree(d, ignore_errors=True)
+
+
+CRASH_CHILD = r'''
+import asyncio, json, os, sys
+sys.path.insert(0, os.environ["PYVC_REPO"]); sys.path.insert(0, os.environ["PYVC_ROOT"])
+import logging; logging.disable(logging.CRITICAL)
+from pathlib import Path
+from harness.realsrv import Session, make_message
+import re
+phase, maildir, spec = sys.argv[1], Path(sys.argv[2]), json.loads(sys.argv[3])
+async def observe(server, name):
+    s = Session(server, name)
+    sel = await s.cmd("SELECT inbox")
+    nxt = [int(m.group(1)) for l in sel for m in [re.search(r"UIDNEXT (\d+)", l)] if m]
+    vv = [int(m.group(1)) for l in sel for m in [re.search(r"UIDVALIDITY (\d+)", l)] if m]
+    srch = await s.cmd("UID SEARCH ALL")
+    uids = [int(x) for l in srch if l.startswith("* SEARCH") for x in l.split()[2:]]
+    pairs = {}
+    text = ""
+    for u in uids:
+        try:
+            f = await asyncio.wait_for(s.cmd(f"UID FETCH {u} (BODY.PEEK[HEADER.FIELDS (SUBJECT)])"), 8)
+        except Exception as e:
+            pairs[u] = f"<unreadable: {type(e).__name__}>"
+            s = Session(server, name + "x" + str(u))
+            await s.cmd("SELECT inbox")
+            continue
+        m = re.search(r"(?:Subject|subject): ([^\r\n]*)", "".join(f))
+        pairs[u] = m.group(1).strip() if m else "<unreadable>"
+    return {"uidnext": nxt[0] if nxt else None, "uidvalidity": vv[0] if vv else None, "pairs": pairs, "raw": text[:400] if not pairs else ""}
+async def main():
+    from asimap.user_server import IMAPUserServer
+    server = await IMAPUserServer.new(maildir)
+    if phase == "before":
+        s = Session(server, "a")
+        await s.cmd("SELECT inbox")
+        await s.cmd("STORE 2 +FLAGS.SILENT (\\Deleted)")
+        await s.cmd("EXPUNGE")            # uids 1,3,4 remain; UIDNEXT 5
+        obs = await observe(server, "b")
+        print("OBS " + json.dumps(obs)); sys.stdout.flush()
+        # what an interrupted EXPUNGE / APPEND leaves behind: files removed or added, nothing committed
+        inbox = maildir / "inbox"
+        keys = sorted(int(p.name) for p in inbox.iterdir() if p.name.isdigit())
+        for idx in spec["remove"]:
+            (inbox / str(keys[idx])).unlink()
+        for j in range(spec["add"]):
+            (inbox / str(keys[-1] + 1 + j)).write_bytes(make_message(100 + j))
+        os._exit(0)                       # killed: no shutdown, no commit
+    obs = await observe(server, "c")
+    print("OBS " + json.dumps(obs)); sys.stdout.flush()
+    os._exit(0)
+asyncio.run(main())
+'''
+
+
+class CrashRecovery(Harness):
+    """C11 (mailbox level): a kill that leaves the folder with files removed and/or added but nothing committed never rebinds a UID
+    and never lowers UIDNEXT."""
+
+    scope = "inbox with UIDs 1,3,4 (UID 2 expunged, UIDNEXT 5); the process is killed after removing any subset of the 3 message files and adding 0 or 1 new file behind the server's back; restart and compare"
+    exhaustive = True
+
+    def inputs(self, tier, seed):
+        import itertools
+
+        for r in range(0, 4):
+            for rem in itertools.combinations(range(3), r):
+                for add in (0, 1):
+                    yield {"remove": list(rem), "add": add}
+
+    def check(self, inp):
+        import json
+        import subprocess
+        import sys
+
+        from .realsrv import make_maildir, scratch_dir
+
+        root = scratch_dir()
+        try:
+            maildir = make_maildir(root, {"inbox": 4})
+            env = dict(os.environ, PYVC_ROOT=os.path.dirname(os.path.dirname(os.path.abspath(__file__))))
+            env.setdefault("PYVC_REPO", "/repo")
+
+            def child(phase):
+                p = subprocess.run([sys.executable, "-c", CRASH_CHILD, phase, str(maildir), json.dumps(inp)], capture_output=True, text=True, env=env, timeout=120)
+                m = re.search(r"OBS (.*)", p.stdout)
+                if not m:
+                    return None, (p.stdout + p.stderr)[-400:]
+                return json.loads(m.group(1)), ""
+
+            before, err = child("before")
+            if before is None:
+                return {"observed": err, "clause": "harness: first run"}
+            after, err = child("after")
+            if after is None:
+                return {"observed": err, "clause": "starting again on the same directory succeeds and the mailbox can be selected"}
+            if after["uidvalidity"] == before["uidvalidity"]:
+                if after["uidnext"] is None or after["uidnext"] < before["uidnext"]:
+                    return {"observed": {"before": before["uidnext"], "after": after["uidnext"]}, "clause": "UIDNEXT is above every revealed UID (never decreases)"}
+                for uid, subj in after["pairs"].items():
+                    if subj.startswith("<unreadable"):
+                        # a listed message whose file is gone (DESIGN 12.4, observation O1): it denotes no message at all, which
+                        # none of C11's clauses forbids; what is checked is that no UID denotes a DIFFERENT message
+                        continue
+                    old = before["pairs"].get(uid)
+                    if old is not None and old != subj:
+                        return {"observed": {"uid": uid, "was": old, "now": subj}, "clause": "no revealed (UIDVALIDITY, UID) pair denotes a different message"}
+                    if old is None and int(uid) < before["uidnext"]:
+                        return {"observed": {"uid": uid, "now": subj, "uidnext_before": before["uidnext"]}, "clause": "a UID below the old UIDNEXT is never given to another message"}
+            return None
+        finally:
+            shutil.rmtree(root, ignore_errors=True)
+
+
+FLAGS_CHILD = r'''
+import asyncio, json, os, sys
+sys.path.insert(0, os.environ["PYVC_REPO"]); sys.path.insert(0, os.environ["PYVC_ROOT"])
+import logging; logging.disable(logging.CRITICAL)
+from pathlib import Path
+from harness.realsrv import Session
+import re
+phase, maildir, spec = sys.argv[1], Path(sys.argv[2]), json.loads(sys.argv[3])
+async def flags_of(server, tag):
+    out = {}
+    for box in ("inbox", "work"):
+        s = Session(server, tag + box)
+        await s.cmd("EXAMINE " + box)
+        f = await s.cmd("UID FETCH 1:* FLAGS")
+        for m in re.finditer(r"UID (\d+) FLAGS \(([^)]*)\)|FLAGS \(([^)]*)\) UID (\d+)", "".join(f)):
+            uid = m.group(1) or m.group(4)
+            fl = m.group(2) if m.group(1) else m.group(3)
+            out[f"{box}:{uid}"] = sorted(x for x in fl.split() if x != "\\Recent")
+    return out
+async def main():
+    from asimap.user_server import IMAPUserServer
+    server = await IMAPUserServer.new(maildir)
+    if phase == "before":
+        a = Session(server, "a")
+        acked = {}
+        for box, cmds in spec["steps"]:
+            await a.cmd("SELECT " + box)
+            for c in cmds:
+                r = await a.cmd(c)
+                if not any(" OK " in l for l in r[-1:]):
+                    print("NOTOK", c, r[-1:])
+        if spec.get("observe"):
+            print("OBS " + json.dumps(await flags_of(server, "b"))); sys.stdout.flush()
+        else:
+            print("OBS {}"); sys.stdout.flush()
+        os._exit(0)          # killed: no orderly shutdown, and (in the run that is restarted) no further command after the acknowledged ones
+    print("OBS " + json.dumps(await flags_of(server, "c"))); sys.stdout.flush()
+    os._exit(0)
+asyncio.run(main())
+'''
+
+
+class CrashFlags(Harness):
+    """C11: acknowledged flag changes persist across a kill -- in every mailbox, not only the one that committed last."""
+
+    scope = "two mailboxes carrying the same flags; histories of 1-3 acknowledged STORE / EXPUNGE steps that set flags and empty whole sequences in one mailbox; kill (no shutdown); restart; all flags of both mailboxes compared"
+    exhaustive = False
+
+    STEPS = [
+        ("inbox", ["STORE 1 +FLAGS (\\Flagged \\Answered kw)"]),
+        ("work", ["STORE 1 +FLAGS (\\Flagged kw)"]),
+        ("work", ["STORE 1:* -FLAGS (\\Flagged kw)"]),
+        ("inbox", ["STORE 1:* -FLAGS (\\Answered)"]),
+        ("work", ["STORE 2 +FLAGS (\\Deleted)", "EXPUNGE"]),
+        ("inbox", ["STORE 1:* +FLAGS (\\Seen)"]),
+    ]
+
+    def inputs(self, tier, seed):
+        import itertools
+
+        n = 3 if tier == "quick" else 4
+        for k in range(1, n + 1):
+            for h in itertools.permutations(range(len(self.STEPS)), k):
+                if k <= 2 or (0 in h and 2 in h):
+                    yield {"history": list(h)}
+
+    def check(self, inp):
+        import json
+        import subprocess
+        import sys
+
+        from .realsrv import make_maildir, scratch_dir
+
+        root = scratch_dir()
+        try:
+            maildir = make_maildir(root, {"inbox": 3, "work": 3})
+            env = dict(os.environ, PYVC_ROOT=os.path.dirname(os.path.dirname(os.path.abspath(__file__))))
+            env.setdefault("PYVC_REPO", "/repo")
+            spec = {"steps": [self.STEPS[i] for i in inp["history"]]}
+
+            def child(phase):
+                p = subprocess.run([sys.executable, "-c", FLAGS_CHILD, phase, str(maildir), json.dumps(spec)], capture_output=True, text=True, env=env, timeout=120)
+                m = re.search(r"OBS (.*)", p.stdout)
+                return (json.loads(m.group(1)) if m else None), (p.stdout + p.stderr)[-400:]
+
+            # what the acknowledged commands amount to: the same history on a twin directory, observed without a kill
+            twin_root = scratch_dir()
+            try:
+                twin = make_maildir(twin_root, {"inbox": 3, "work": 3})
+                p = subprocess.run([sys.executable, "-c", FLAGS_CHILD, "before", str(twin), json.dumps({**spec, "observe": True})], capture_output=True, text=True, env=env, timeout=120)
+                m = re.search(r"OBS (.*)", p.stdout)
+                before = json.loads(m.group(1)) if m else None
+                err = (p.stdout + p.stderr)[-400:]
+            finally:
+                shutil.rmtree(twin_root, ignore_errors=True)
+            if before is None:
+                return {"observed": err, "clause": "harness: twin run"}
+            killed, err = child("before")
+            if killed is None:
+                return {"observed": err, "clause": "harness: first run"}
+            after, err = child("after")
+            if after is None:
+                return {"observed": err, "clause": "starting again on the same directory succeeds and every mailbox can be selected"}
+            if before != after:
+                diff = {k: (before.get(k), after.get(k)) for k in set(before) | set(after) if before.get(k) != after.get(k)}
+                return {"observed": {"differs": str(diff)[:500]}, "clause": "acknowledged flag changes persist"}
+            return None
+        finally:
+            shutil.rmtree(root, ignore_errors=True)
